@@ -14,3 +14,28 @@ def z3str(s):
 
 def model_get(model, name):
     return (model or {}).get(name)
+
+
+class TookTooLong(Exception):
+    pass
+
+
+class time_limit:
+    """Per-case wall-clock limit for calls into the real code: a hang is a failing input, not a crash of the checker."""
+
+    def __init__(self, seconds):
+        self.seconds = seconds
+
+    def __enter__(self):
+        import signal
+
+        def handler(signum, frame):
+            raise TookTooLong('no result within %d s' % self.seconds)
+        self.old = signal.signal(signal.SIGALRM, handler)
+        signal.alarm(self.seconds)
+
+    def __exit__(self, *exc):
+        import signal
+        signal.alarm(0)
+        signal.signal(signal.SIGALRM, self.old)
+        return False
